@@ -77,6 +77,7 @@ func of(pos []int32, hasN bool, n int32) (r []uint64, p string) {
 			p = fmt.Sprint("panic: ", e)
 		}
 	}()
+	pos = gen.DirtyI32(pos) // a window into a larger, non-zero buffer
 	if hasN {
 		return bitmap.Of(pos, n), ""
 	}
